@@ -171,3 +171,42 @@ PROPS["C15"] = dict(
                  "a content change always raises the timestamp; deletion only in the plain loader; a name whose current source was "
                  "registered is rendered only while the cache is on (what a registered string means with the cache off is not determined)"],
 )
+
+
+def _c20_floods(lines, seed, tier):
+    """Adds, for a sample of the emitted lookup histories, a variant at the production capacity (1000) with floods of 1100
+    fresh (type, name) pairs between the lookups: the expected values are unchanged (the cache is unobservable)."""
+    import json, random
+    rnd = random.Random(seed)
+    out = list(lines)
+    for l in rnd.sample(lines, min(len(lines), 25 if tier == "quick" else 150)):
+        c = json.loads(l)
+        ops = []
+        for op in c["ops"]:
+            ops.append(op)
+            ops.append({"flood": 1100})
+        c["ops"] = ops
+        c["cap"] = 1000
+        c["key"] = c["key"] + "+floods"
+        c["tags"] = list(c.get("tags") or []) + ["flood"]
+        out.append(json.dumps(c) + "\n")
+    return out
+
+
+PROPS["C20"] = dict(
+    level="model_checking",
+    stages=[dict(name="enum", module="AttrCache", cmd="attrhist", cfg={"quick": "MC_C20_quick.cfg", "thorough": "MC_C20_thorough.cfg"},
+                 timeout={"quick": 300, "thorough": 1500}),
+            dict(name="walks", module="AttrCache", cmd="attrhist", cfg={"quick": "MC_C20_sim.cfg", "thorough": "MC_C20_sim.cfg"},
+                 # TLC's simulator checks the emitting invariant on every generated successor, so each walk yields
+                 # one history per enabled last lookup (~280): num is the number of walks, not of histories
+                 simulate={"quick": 12, "thorough": 250}, depth=11, workers=1, timeout={"quick": 300, "thorough": 1500},
+                 transform=_c20_floods)],
+    nontrivial=lambda r: True,
+    rule="every lookup history of length 2 (quick) / 3 (thorough) over 15 objects (6 struct shapes incl. embedded structs at depth 1 and 2, "
+         "shadowing, value/pointer methods, unexported field; pointers to them; 3 Go map types) x 9 names, plus TLC random walks of 10 "
+         "lookups, replayed with the real attribute cache set to the model's capacity 2 through the verif hook; sampled histories are "
+         "repeated at the production capacity with floods of 1100 fresh (type, name) pairs between the lookups",
+    assumptions=["AttrCache.tla: TLC checks CacheUnobservable for every victim choice; deviations KeyWithoutType / FirstIndexOnly must violate it",
+                 "pointer-receiver methods are only looked up on pointers; a name that denotes an embedded struct itself is not looked up"],
+)
